@@ -187,6 +187,37 @@ pub fn run(tier: &str) -> i32 {
             acc
         })
         .reduce(Acc::new, Acc::merge);
+    // long second arguments (implementations may switch strategy with the size) whose elements are scalars and the
+    // strings that spell them
+    let long_acc = {
+        let mut acc = Acc::new();
+        for n in [15usize, 16, 17, 18, 33, 64, 129] {
+            let nums: Vec<Value> = (100..100 + n as i64).map(|i| json!(i)).collect();
+            let mut mixed = nums.clone();
+            mixed[0] = json!(true);
+            mixed[1] = json!(null);
+            mixed[2] = json!("x");
+            let strs: Vec<Value> = (100..100 + n as i64).map(|i| json!(i.to_string())).collect();
+            for l in [Value::Array(nums.clone()), Value::Array(mixed), Value::Array(strs)] {
+                let b = Some(l);
+                let firsts: Vec<Option<Value>> = vec![
+                    Some(json!(["100"])), Some(json!([100])), Some(json!(["true"])), Some(json!([true])), Some(json!(["null"])), Some(json!([null])), Some(json!(["x"])), Some(json!([103, "103"])),
+                    Some(json!([103, 104])), Some(json!(["103", "104"])), Some(json!([])), Some(json!([100.0])), Some(json!([[100]])), Some(json!(100)), None,
+                ];
+                let scalars: Vec<Option<Value>> = vec![Some(json!("100")), Some(json!(100)), Some(json!("true")), Some(json!(true)), Some(json!("null")), Some(json!(null)), Some(json!("x")), Some(json!(100.5)), None];
+                for form in ["@.x", "negated"] {
+                    for f in ["any_of", "none_of", "subset_of"] {
+                        ext_case(&run, &mut acc, f, form, &b, &firsts);
+                    }
+                    for f in ["in", "nin"] {
+                        ext_case(&run, &mut acc, f, form, &b, &scalars);
+                    }
+                }
+            }
+        }
+        acc
+    };
+    let acc = acc.merge(long_acc);
     run.finish(
         acc,
         "one case = one (function, first argument, second argument, argument form); all first arguments are packed into one document per second argument; oracle = set membership as the property states it (false for a missing or non-array argument); non-trivial = the test is true",
